@@ -42,8 +42,7 @@ VARIABLES up, start, sess, cursor, errArms, crashed,           \* session parame
           hlp, code, hlpQ,                                     \* helper process, exit status, its unread output
           pcE, pcW, hze, inp,                                  \* goroutines
           cuT, clT, svT, kill,                                 \* timers (armed), pending kill
-          srvCan, hlpCan, hlpCanLive, hlpWaiting, errNoCmd, fwdCan, lateLaunch, cleanHdr,  \* history
-          lastOut, lastIn,                                     \* last observable dispositions
+          srvCan, hlpCan, hlpWaiting, errNoCmd, cleanHdr,          \* history
           nHdr, nSrv, nHout, nCtrlC, nText                     \* budgets used
 
 sessv  == <<up, start, sess, cursor, errArms, crashed>>
@@ -51,14 +50,11 @@ flags  == <<stopped, cleaned, cliFin, srvFin, errOcc>>
 helper == <<hlp, code, hlpQ>>
 pcs    == <<pcE, pcW, hze, inp>>
 timers == <<cuT, clT, svT, kill>>
-hist   == <<srvCan, hlpCan, hlpCanLive, hlpWaiting, errNoCmd, fwdCan, lateLaunch, cleanHdr>>
-obs    == <<lastOut, lastIn>>
+hist   == <<srvCan, hlpCan, hlpWaiting, errNoCmd, cleanHdr>>
 budget == <<nHdr, nSrv, nHout, nCtrlC, nText>>
-vars   == <<sessv, flags, helper, pcs, timers, hist, obs, budget>>
+vars   == <<sessv, flags, helper, pcs, timers, hist, budget>>
 
 HzeIdle == [pc |-> "idle", who |-> "none", cause |-> "none"]
-NoOut == [k |-> "none", disp |-> "none", fwd |-> FALSE, ret |-> FALSE]
-NoIn  == [k |-> "none", disp |-> "none", ret |-> FALSE]
 NoInp == [k |-> "none", pc |-> "none"]
 
 Returned     == stopped /\ cleaned          \* ~isTransferringFiles()
@@ -70,9 +66,7 @@ InitVals ==
     /\ hlp = "none" /\ code = "zero" /\ hlpQ = <<>>
     /\ pcE = "idle" /\ pcW = "off" /\ hze = HzeIdle /\ inp = NoInp
     /\ cuT = FALSE /\ clT = FALSE /\ svT = FALSE /\ kill = FALSE
-    /\ srvCan = FALSE /\ hlpCan = FALSE /\ hlpCanLive = FALSE /\ hlpWaiting = FALSE /\ errNoCmd = FALSE
-    /\ fwdCan = FALSE /\ lateLaunch = FALSE /\ cleanHdr = FALSE
-    /\ lastOut = NoOut /\ lastIn = NoIn
+    /\ srvCan = FALSE /\ hlpCan = FALSE /\ hlpWaiting = FALSE /\ errNoCmd = FALSE /\ cleanHdr = FALSE
     /\ nHdr = 0 /\ nSrv = 0 /\ nHout = 0 /\ nCtrlC = 0 /\ nText = 0
 
 Init == InitVals /\ errArms \in ErrArms
@@ -84,9 +78,7 @@ Reset ==
     /\ hlp' = "none" /\ code' = "zero" /\ hlpQ' = <<>>
     /\ pcE' = "idle" /\ pcW' = "off" /\ hze' = HzeIdle /\ inp' = NoInp
     /\ cuT' = FALSE /\ clT' = FALSE /\ svT' = FALSE /\ kill' = FALSE
-    /\ srvCan' = FALSE /\ hlpCan' = FALSE /\ hlpCanLive' = FALSE /\ hlpWaiting' = FALSE /\ errNoCmd' = FALSE
-    /\ fwdCan' = FALSE /\ lateLaunch' = FALSE /\ cleanHdr' = FALSE
-    /\ lastOut' = NoOut /\ lastIn' = NoIn
+    /\ srvCan' = FALSE /\ hlpCan' = FALSE /\ hlpWaiting' = FALSE /\ errNoCmd' = FALSE /\ cleanHdr' = FALSE
     /\ nHdr' = 0 /\ nSrv' = 0 /\ nHout' = 0 /\ nCtrlC' = 0 /\ nText' = 0
     /\ errArms' \in ErrArms
 
@@ -103,18 +95,19 @@ HzeStart(who, cause) ==
 
 (* if cmd := z.cmd.Load(); cmd != nil { writeAll(z.stdin, cancel); ensureClientExit(cmd) }   *)
 HzeCmd ==
+    /\ ~crashed
     /\ hze.pc = "cmd"
     /\ hze' = [hze EXCEPT !.pc = "msg"]
     /\ IF hlp # "none"
-       THEN /\ hlpCan' = TRUE /\ hlpCanLive' = (hlpCanLive \/ hlp = "run") /\ kill' = TRUE
+       THEN /\ hlpCan' = TRUE /\ kill' = TRUE
             /\ UNCHANGED errNoCmd
-       ELSE /\ errNoCmd' = TRUE /\ UNCHANGED <<hlpCan, hlpCanLive, kill>>
-    /\ UNCHANGED <<sessv, flags, helper, pcE, pcW, inp, cuT, clT, svT, srvCan, hlpWaiting, fwdCan,
-                   lateLaunch, cleanHdr, obs, budget>>
+       ELSE /\ errNoCmd' = TRUE /\ UNCHANGED <<hlpCan, kill>>
+    /\ UNCHANGED <<sessv, flags, helper, pcE, pcW, inp, cuT, clT, svT, srvCan, hlpWaiting, cleanHdr, budget>>
 
 (* z.writeMessage(msg); return to the caller.  Variant ErrArms: the cleanup timer is armed   *)
 (* when there is no helper whose exit would arm it.                                           *)
 HzeMsg ==
+    /\ ~crashed
     /\ hze.pc = "msg"
     /\ hze' = HzeIdle
     /\ cuT' = (cuT \/ (errArms /\ errNoCmd))
@@ -122,239 +115,265 @@ HzeMsg ==
     /\ pcE' = CASE hze.who = "E" -> "done"
                 [] hze.who = "R" -> "brk"
                 [] OTHER -> pcE
-    /\ UNCHANGED <<sessv, flags, helper, pcW, clT, svT, kill, hist, obs, budget>>
+    /\ UNCHANGED <<sessv, flags, helper, pcW, clT, svT, kill, hist, budget>>
 
 -----------------------------------------------------------------------------
 (* Output pump: one turn of wrapOutput's loop.                                                *)
 
-(* detectZmodem on a chunk that carries a start header, no session yet.                      *)
+(* detectZmodem on a chunk that carries a start header, no session yet.  The chunk itself     *)
+(* always reaches the terminal.                                                               *)
 Detect(u, st, v) ==
+    /\ ~crashed
     /\ sess = "none" /\ nHdr < MaxHdr
     /\ nHdr' = nHdr + 1
-    /\ lastOut' = [k |-> "hdr", disp |-> "pass", fwd |-> FALSE, ret |-> FALSE]
     /\ IF v = "none"
        THEN /\ sess' = "held" /\ up' = u /\ start' = st /\ cursor' = "hidden"
             /\ pcE' = IF InitBeforePublish THEN "sleep" ELSE "init"
             /\ cleanHdr' = TRUE
             /\ UNCHANGED <<errArms, crashed>>
        ELSE UNCHANGED <<sessv, pcE, cleanHdr>>
-    /\ UNCHANGED <<flags, helper, pcW, hze, inp, timers, srvCan, hlpCan, hlpCanLive, hlpWaiting,
-                   errNoCmd, fwdCan, lateLaunch, lastIn, nSrv, nHout, nCtrlC, nText>>
+    /\ UNCHANGED <<flags, helper, pcW, hze, inp, timers, srvCan, hlpCan, hlpWaiting,
+                   errNoCmd, nSrv, nHout, nCtrlC, nText>>
+
+(* What the pump does with a non-header chunk of kind k in the current state (observable):   *)
+(* "pass" = it reaches the terminal, "held" = it does not (swallowed or given to the helper). *)
+OutDisp(k) ==
+    IF sess # "held" THEN "pass"
+    ELSE IF stopped THEN (IF cleaned THEN "pass" ELSE "held")
+    ELSE IF hlp # "none" THEN "held"
+    ELSE IF k \in {"can", "cno"} THEN "pass" ELSE "held"
+OutFwd(k) == sess = "held" /\ ~stopped /\ hlp = "run"      \* ... and it is written to a live helper
 
 (* handleServerOutput returned false: showCursor, filter.zmodem.CompareAndSwap(zmodem, nil), *)
 (* the chunk goes on to the terminal.                                                         *)
-Declined(k) ==
-    /\ sess' = "dropped" /\ cursor' = "shown"
-    /\ lastOut' = [k |-> k, disp |-> "pass", fwd |-> FALSE, ret |-> Returned]
+Declined == sess' = "dropped" /\ cursor' = "shown"
 
 Out(k) ==
+    /\ ~crashed
     /\ nSrv < MaxSrv
     /\ nSrv' = nSrv + 1
     /\ UNCHANGED <<up, start, errArms, crashed, cliFin, errOcc, helper, pcs, clT, kill,
-                   srvCan, hlpCan, hlpCanLive, hlpWaiting, errNoCmd, lateLaunch, cleanHdr,
-                   lastIn, nHdr, nHout, nCtrlC, nText>>
+                   srvCan, hlpCan, hlpWaiting, errNoCmd, cleanHdr,
+                   nHdr, nHout, nCtrlC, nText>>
     /\ IF sess # "held"
        THEN \* no session: plain pass-through
-            /\ lastOut' = [k |-> k, disp |-> "pass", fwd |-> FALSE, ret |-> TRUE]
-            /\ UNCHANGED <<sess, cursor, stopped, cleaned, srvFin, cuT, svT, fwdCan>>
+            /\ OutDisp(k) = "pass"
+            /\ UNCHANGED <<sess, cursor, stopped, cleaned, srvFin, cuT, svT>>
        ELSE IF stopped
        THEN IF cleaned
-            THEN /\ Declined(k)
-                 /\ UNCHANGED <<stopped, cleaned, srvFin, cuT, svT, fwdCan>>
+            THEN /\ Declined /\ OutDisp(k) = "pass"
+                 /\ UNCHANGED <<stopped, cleaned, srvFin, cuT, svT>>
             ELSE \* z.resetCleanupTimer(); return true
-                 /\ cuT' = TRUE
-                 /\ lastOut' = [k |-> k, disp |-> "held", fwd |-> FALSE, ret |-> FALSE]
-                 /\ UNCHANGED <<sess, cursor, stopped, cleaned, srvFin, svT, fwdCan>>
+                 /\ cuT' = TRUE /\ OutDisp(k) = "held"
+                 /\ UNCHANGED <<sess, cursor, stopped, cleaned, srvFin, svT>>
        ELSE IF hlp # "none"
        THEN \* forward server output to the client (z.cmd is set)
+            /\ OutDisp(k) = "held"
             /\ svT' = (svT \/ ~up)
             /\ srvFin' = (srvFin \/ k = "fin")
-            /\ fwdCan' = (fwdCan \/ (k = "can" /\ hlp = "run"))
-            /\ lastOut' = [k |-> k, disp |-> "held", fwd |-> (hlp = "run"), ret |-> FALSE]
             /\ UNCHANGED <<sess, cursor, stopped, cleaned, cuT>>
        ELSE IF k \in {"can", "cno"}
        THEN \* server canceled before the client startup
+            /\ OutDisp(k) = "pass"
             /\ cleaned' = TRUE /\ stopped' = TRUE
-            /\ Declined(k)
-            /\ UNCHANGED <<srvFin, cuT, svT, fwdCan>>
+            /\ Declined
+            /\ UNCHANGED <<srvFin, cuT, svT>>
        ELSE \* skip it and wait for the client to start
-            /\ lastOut' = [k |-> k, disp |-> "held", fwd |-> FALSE, ret |-> FALSE]
-            /\ UNCHANGED <<sess, cursor, stopped, cleaned, srvFin, cuT, svT, fwdCan>>
+            /\ OutDisp(k) = "held"
+            /\ UNCHANGED <<sess, cursor, stopped, cleaned, srvFin, cuT, svT>>
 
 -----------------------------------------------------------------------------
 (* Input pump: one turn of wrapInput's loop = sendInput(buf).                                 *)
 
 InBegin(k) ==
+    /\ ~crashed
     /\ inp.pc = "none"
     /\ IF k = "ctrlc" THEN nCtrlC < MaxCtrlC /\ nCtrlC' = nCtrlC + 1 /\ UNCHANGED nText
                       ELSE nText < MaxText /\ nText' = nText + 1 /\ UNCHANGED nCtrlC
     /\ UNCHANGED <<up, start, sess, cursor, errArms, cleaned, cliFin, srvFin, helper, pcE, pcW, timers,
-                   hlpCan, hlpCanLive, errNoCmd, fwdCan, lateLaunch, cleanHdr, lastOut, nHdr, nSrv, nHout>>
+                   hlpCan, errNoCmd, cleanHdr, nHdr, nSrv, nHout>>
     /\ IF sess # "held"
-       THEN \* filter.zmodem is nil: straight to the server
-            /\ lastIn' = [k |-> k, disp |-> "pass", ret |-> TRUE]
-            /\ UNCHANGED <<crashed, stopped, errOcc, hze, inp, srvCan, hlpWaiting>>
+       THEN \* filter.zmodem is nil: straight to the server (inp.pc "pass": observable result)
+            /\ inp' = [k |-> k, pc |-> "pass"]
+            /\ UNCHANGED <<crashed, stopped, errOcc, hze, srvCan, hlpWaiting>>
        ELSE IF k = "ctrlc" /\ ~stopped
        THEN \* zmodem.stopTransferringFiles() wins the CAS
             IF pcE = "init"
             THEN \* z.serverIn is still nil: writeAll panics, the process dies
                  /\ crashed' = TRUE
-                 /\ UNCHANGED <<stopped, errOcc, hze, inp, srvCan, hlpWaiting, lastIn>>
+                 /\ UNCHANGED <<stopped, errOcc, hze, inp, srvCan, hlpWaiting>>
             ELSE /\ HzeStart("in", "stopped")
                  /\ inp' = [k |-> k, pc |-> "hze"]
-                 /\ UNCHANGED <<crashed, lastIn>>
+                 /\ UNCHANGED crashed
        ELSE /\ inp' = [k |-> k, pc |-> "check"]
-            /\ UNCHANGED <<crashed, stopped, errOcc, hze, srvCan, hlpWaiting, lastIn>>
+            /\ UNCHANGED <<crashed, stopped, errOcc, hze, srvCan, hlpWaiting>>
 
 (* if zmodem.isTransferringFiles() { return } ... writeAll(filter.serverIn, buf)              *)
+InDisp == IF inp.pc = "pass" THEN "pass" ELSE IF Transferring THEN "drop" ELSE "pass"
 InCheck ==
-    /\ inp.pc = "check"
+    /\ ~crashed
+    /\ inp.pc \in {"check", "pass"}
     /\ inp' = NoInp
-    /\ lastIn' = [k |-> inp.k, disp |-> (IF Transferring THEN "drop" ELSE "pass"), ret |-> Returned]
-    /\ UNCHANGED <<sessv, flags, helper, pcE, pcW, hze, timers, hist, lastOut, budget>>
+    /\ UNCHANGED <<sessv, flags, helper, pcE, pcW, hze, timers, hist, budget>>
 
 -----------------------------------------------------------------------------
 (* Goroutine E: handleZmodemEvent, then handleZmodemStream's read loop.                       *)
 
 (* z.logger = logger; z.serverIn = serverIn; z.clientOut = clientOut                          *)
 EInit ==
+    /\ ~crashed
     /\ pcE = "init" /\ pcE' = "sleep"
-    /\ UNCHANGED <<sessv, flags, helper, pcW, hze, inp, timers, hist, obs, budget>>
+    /\ UNCHANGED <<sessv, flags, helper, pcW, hze, inp, timers, hist, budget>>
 
 (* time.Sleep(100ms); if z.stopped.Load() { return }                                          *)
 Sleep100 ==
+    /\ ~crashed
     /\ pcE = "sleep"
     /\ pcE' = IF stopped THEN "done" ELSE "launch"
-    /\ UNCHANGED <<sessv, flags, helper, pcW, hze, inp, timers, hist, obs, budget>>
+    /\ UNCHANGED <<sessv, flags, helper, pcW, hze, inp, timers, hist, budget>>
 
 (* choose files/path, launchZmodemCmd, z.cmd.Store(cmd), resetClientTimer, resetServerTimer,  *)
 (* go checkClientExited                                                                       *)
 LaunchOK ==
+    /\ ~crashed
     /\ pcE = "launch" /\ start = "ok"
     /\ pcE' = "read" /\ pcW' = "wait"
     /\ hlp' = "run"
     /\ clT' = up /\ svT' = ~up
-    /\ lateLaunch' = stopped
-    /\ UNCHANGED <<sessv, flags, code, hlpQ, hze, inp, cuT, kill, srvCan, hlpCan, hlpCanLive, hlpWaiting,
-                   errNoCmd, fwdCan, cleanHdr, obs, budget>>
+    /\ UNCHANGED <<sessv, flags, code, hlpQ, hze, inp, cuT, kill, srvCan, hlpCan, hlpWaiting,
+                   errNoCmd, cleanHdr, budget>>
 
 (* chooseUploadFiles/chooseDownloadPath or launchZmodemCmd failed: handleZmodemError(err)     *)
 LaunchFail ==
+    /\ ~crashed
     /\ pcE = "launch" /\ start # "ok"
     /\ IF stopped
        THEN pcE' = "done" /\ UNCHANGED <<stopped, errOcc, srvCan, hlpWaiting, hze>>
        ELSE pcE' = "hze" /\ HzeStart("E", IF start = "nopath" THEN "runfail" ELSE "choosefail")
-    /\ UNCHANGED <<sessv, cleaned, cliFin, srvFin, helper, pcW, inp, timers, hlpCan, hlpCanLive,
-                   errNoCmd, fwdCan, lateLaunch, cleanHdr, obs, budget>>
+    /\ UNCHANGED <<sessv, cleaned, cliFin, srvFin, helper, pcW, inp, timers, hlpCan,
+                   errNoCmd, cleanHdr, budget>>
 
 (* one turn of the read loop with n > 0: forwarded to the server                              *)
 ReadFwd ==
+    /\ ~crashed
     /\ pcE = "read" /\ hlpQ # <<>>
     /\ ~(errOcc \/ (srvFin /\ cliFin))
     /\ hlpQ' = Tail(hlpQ)
     /\ clT' = up
     /\ cliFin' = (cliFin \/ Head(hlpQ) = "fin")
-    /\ UNCHANGED <<sessv, stopped, cleaned, srvFin, errOcc, hlp, code, pcs, cuT, svT, kill, hist, obs, budget>>
+    /\ UNCHANGED <<sessv, stopped, cleaned, srvFin, errOcc, hlp, code, pcs, cuT, svT, kill, hist, budget>>
 
 (* ... "ignore zmodem output": break                                                          *)
 ReadIgnore ==
+    /\ ~crashed
     /\ pcE = "read" /\ hlpQ # <<>>
     /\ errOcc \/ (srvFin /\ cliFin)
     /\ hlpQ' = Tail(hlpQ)
     /\ clT' = up
     /\ pcE' = "brk"
-    /\ UNCHANGED <<sessv, flags, hlp, code, pcW, hze, inp, cuT, svT, kill, hist, obs, budget>>
+    /\ UNCHANGED <<sessv, flags, hlp, code, pcW, hze, inp, cuT, svT, kill, hist, budget>>
 
 (* err == io.EOF: break                                                                       *)
 ReadEOF ==
+    /\ ~crashed
     /\ pcE = "read" /\ hlpQ = <<>> /\ hlp = "dead"
     /\ pcE' = "brk"
-    /\ UNCHANGED <<sessv, flags, helper, pcW, hze, inp, timers, hist, obs, budget>>
+    /\ UNCHANGED <<sessv, flags, helper, pcW, hze, inp, timers, hist, budget>>
 
 (* cmd.Wait() in W has closed the pipe under the reader: "read from client failed"            *)
 ReadErr ==
+    /\ ~crashed
     /\ pcE = "read" /\ pcW \notin {"off", "wait"}
     /\ hlpQ' = <<>>
     /\ IF stopped
        THEN pcE' = "brk" /\ UNCHANGED <<stopped, errOcc, srvCan, hlpWaiting, hze>>
        ELSE pcE' = "hze" /\ HzeStart("R", "readerr")
-    /\ UNCHANGED <<sessv, cleaned, cliFin, srvFin, hlp, code, pcW, inp, timers, hlpCan, hlpCanLive,
-                   errNoCmd, fwdCan, lateLaunch, cleanHdr, obs, budget>>
+    /\ UNCHANGED <<sessv, cleaned, cliFin, srvFin, hlp, code, pcW, inp, timers, hlpCan,
+                   errNoCmd, cleanHdr, budget>>
 
 (* after the loop: clientTimer.Stop(); ensureClientExit(cmd)                                  *)
 Break ==
+    /\ ~crashed
     /\ pcE = "brk"
     /\ pcE' = "done"
     /\ clT' = FALSE /\ kill' = TRUE
-    /\ UNCHANGED <<sessv, flags, helper, pcW, hze, inp, cuT, svT, hist, obs, budget>>
+    /\ UNCHANGED <<sessv, flags, helper, pcW, hze, inp, cuT, svT, hist, budget>>
 
 -----------------------------------------------------------------------------
 (* Goroutine W: checkClientExited.                                                            *)
 
 WaitReturns ==
+    /\ ~crashed
     /\ pcW = "wait" /\ hlp = "dead"
     /\ pcW' = "store"
-    /\ UNCHANGED <<sessv, flags, helper, pcE, hze, inp, timers, hist, obs, budget>>
+    /\ UNCHANGED <<sessv, flags, helper, pcE, hze, inp, timers, hist, budget>>
 
 WStore ==
+    /\ ~crashed
     /\ pcW = "store" /\ pcW' = "msg"
     /\ stopped' = TRUE
     /\ svT' = FALSE
-    /\ UNCHANGED <<sessv, cleaned, cliFin, srvFin, errOcc, helper, pcE, hze, inp, cuT, clT, kill, hist, obs, budget>>
+    /\ UNCHANGED <<sessv, cleaned, cliFin, srvFin, errOcc, helper, pcE, hze, inp, cuT, clT, kill, hist, budget>>
 
 WMsg ==
+    /\ ~crashed
     /\ pcW = "msg" /\ pcW' = "arm"
-    /\ UNCHANGED <<sessv, flags, helper, pcE, hze, inp, timers, hist, obs, budget>>
+    /\ UNCHANGED <<sessv, flags, helper, pcE, hze, inp, timers, hist, budget>>
 
 WArm ==
+    /\ ~crashed
     /\ pcW = "arm" /\ pcW' = "cancel"
     /\ cuT' = TRUE
-    /\ UNCHANGED <<sessv, flags, helper, pcE, hze, inp, clT, svT, kill, hist, obs, budget>>
+    /\ UNCHANGED <<sessv, flags, helper, pcE, hze, inp, clT, svT, kill, hist, budget>>
 
 WCancel ==
+    /\ ~crashed
     /\ pcW = "cancel" /\ pcW' = "done"
     /\ srvCan' = TRUE
-    /\ UNCHANGED <<sessv, flags, helper, pcE, hze, inp, timers, hlpCan, hlpCanLive, hlpWaiting, errNoCmd,
-                   fwdCan, lateLaunch, cleanHdr, obs, budget>>
+    /\ UNCHANGED <<sessv, flags, helper, pcE, hze, inp, timers, hlpCan, hlpWaiting, errNoCmd, cleanHdr, budget>>
 
 -----------------------------------------------------------------------------
 (* Timers.                                                                                    *)
 
 (* resetCleanupTimer's AfterFunc: cleaned.Store(true); serverIn.Write("\r")                   *)
 CleanupFires ==
+    /\ ~crashed
     /\ cuT /\ cuT' = FALSE
     /\ cleaned' = TRUE
-    /\ UNCHANGED <<sessv, stopped, cliFin, srvFin, errOcc, helper, pcs, clT, svT, kill, hist, obs, budget>>
+    /\ UNCHANGED <<sessv, stopped, cliFin, srvFin, errOcc, helper, pcs, clT, svT, kill, hist, budget>>
 
 TimerFires(who, cause) ==
     /\ IF stopped
        THEN UNCHANGED <<stopped, errOcc, srvCan, hlpWaiting, hze>>
        ELSE hze.pc = "idle" /\ HzeStart(who, cause)
-    /\ UNCHANGED <<sessv, cleaned, cliFin, srvFin, helper, pcE, pcW, inp, cuT, kill, hlpCan, hlpCanLive,
-                   errNoCmd, fwdCan, lateLaunch, cleanHdr, obs, budget>>
+    /\ UNCHANGED <<sessv, cleaned, cliFin, srvFin, helper, pcE, pcW, inp, cuT, kill, hlpCan,
+                   errNoCmd, cleanHdr, budget>>
 
-ClientTimerFires == clT /\ clT' = FALSE /\ UNCHANGED svT /\ TimerFires("T", "ctimeout")
-ServerTimerFires == svT /\ svT' = FALSE /\ UNCHANGED clT /\ TimerFires("T", "stimeout")
+ClientTimerFires == ~crashed /\ clT /\ clT' = FALSE /\ UNCHANGED svT /\ TimerFires("T", "ctimeout")
+ServerTimerFires == ~crashed /\ svT /\ svT' = FALSE /\ UNCHANGED clT /\ TimerFires("T", "stimeout")
 
 (* ensureClientExit's goroutine: time.Sleep(500ms); cmd.Process.Kill()                        *)
 Kill ==
+    /\ ~crashed
     /\ kill /\ kill' = FALSE
     /\ IF hlp = "run" THEN hlp' = "dead" /\ code' = "nonzero" ELSE UNCHANGED <<hlp, code>>
-    /\ UNCHANGED <<sessv, flags, hlpQ, pcs, cuT, clT, svT, hist, obs, budget>>
+    /\ UNCHANGED <<sessv, flags, hlpQ, pcs, cuT, clT, svT, hist, budget>>
 
 -----------------------------------------------------------------------------
 (* The local helper process (environment).                                                    *)
 
 HelperOut(k) ==
+    /\ ~crashed
     /\ hlp = "run" /\ nHout < MaxHout
     /\ nHout' = nHout + 1
     /\ hlpQ' = Append(hlpQ, k)
-    /\ UNCHANGED <<sessv, flags, hlp, code, pcs, timers, hist, obs, nHdr, nSrv, nCtrlC, nText>>
+    /\ UNCHANGED <<sessv, flags, hlp, code, pcs, timers, hist, nHdr, nSrv, nCtrlC, nText>>
 
 HelperExit(c) ==
+    /\ ~crashed
     /\ hlp = "run"
     /\ hlp' = "dead" /\ code' = c
-    /\ UNCHANGED <<sessv, flags, hlpQ, pcs, timers, hist, obs, budget>>
+    /\ UNCHANGED <<sessv, flags, hlpQ, pcs, timers, hist, budget>>
 
 -----------------------------------------------------------------------------
 Short ==    \* internal steps that are due within the code's short delays (<= 500 ms)
@@ -371,7 +390,7 @@ Env ==
     \/ \E k \in HoutKinds : HelperOut(k)
     \/ \E c \in Codes : HelperExit(c)
 
-Next == ~crashed /\ (Short \/ Long \/ Env)
+Next == Short \/ Long \/ Env
 
 Spec == Init /\ [][Next]_vars
 
@@ -402,8 +421,7 @@ Fairness ==
 (* with no helper, the remote side reacts to the cancel sequence with some output.           *)
 StuckNoCmd == Quiescent /\ sess = "held" /\ stopped /\ ~cleaned /\ errNoCmd
 EchoStep == ~crashed /\ StuckNoCmd /\ nSrv' = nSrv /\ cuT' = TRUE
-            /\ lastOut' = [k |-> "data", disp |-> "held", fwd |-> FALSE, ret |-> FALSE]
-            /\ UNCHANGED <<sessv, flags, helper, pcs, clT, svT, kill, hist, lastIn, nHdr, nHout, nCtrlC, nText>>
+            /\ UNCHANGED <<sessv, flags, helper, pcs, clT, svT, kill, hist, nHdr, nHout, nCtrlC, nText>>
 
 LiveSpec     == Init /\ [][Next]_vars /\ Fairness                          \* strict
 NextEcho == Next \/ EchoStep
@@ -432,12 +450,11 @@ CancelSentToWaiter ==
     /\ pcW = "done" => srvCan                                      \* helper exited -> server told
     /\ (errOcc /\ hze.pc # "cmd" ) => srvCan                       \* any handleZmodemError -> server told
     /\ (errOcc /\ hze.pc = "idle" /\ hlpWaiting) => hlpCan         \* ... and the helper, if it was running
-    /\ (lastOut.k = "can" /\ lastOut.disp = "held" /\ lastOut.fwd) => fwdCan
 
 (* A server chunk is withheld from the terminal only while the session is not (stopped and   *)
 (* cleaned); typed input is dropped only then.                                                *)
-SwallowOnlyWhileActive == lastOut.disp = "held" => ~lastOut.ret
-InputFlowsAfter        == lastIn.disp = "drop" => ~lastIn.ret
+SwallowOnlyWhileActive == [][\A k \in SrvKinds : (Out(k) /\ OutDisp(k) = "held") => ~Returned]_vars
+InputFlowsAfter        == [][(InCheck /\ InDisp = "drop") => ~Returned]_vars
 
 (* Once handed back, always handed back (the flags are never reset).                          *)
 ReturnedIsStable == [][Returned => Returned']_vars
